@@ -42,7 +42,7 @@ Definition consumption (t : dtype) : nat :=
   | DEd25519 => 32       (* ed25519.GenerateKey(reader) reads the 32-byte seed *)
   end.
 
-(* derivedKeyParameters.HasIDRequirement(): PRF and streaming keys never have one *)
+(* HasIDRequirement() of the derived-key parameters: PRF and streaming keys never have one *)
 Definition has_id_req (t : dtype) (v : variant) : bool :=
   match t with
   | DHkdfPrf _ | DHmacPrf _ | DAesGcmHkdf _ => false
